@@ -193,7 +193,23 @@ def run_split(bib, text: str, how: str = "split"):
             lib = bib.parse_string(text, parse_stack=[])
     except Exception as e:  # noqa
         return f"{type(e).__name__}: {str(e)[:120]}", []
-    return None, observe(lib, bib.model)
+    obs = observe(lib, bib.model)
+    scribble(lib, bib.model)
+    return None, obs
+
+
+def scribble(lib, M):
+    """After the observation the caller edits what it got (as any user may): if the parser hands out state that is shared
+    between parses (a mutable default, a cache), a LATER parse will show it."""
+    for b in lib.blocks:
+        inner = getattr(b, "ignore_error_block", None) or b
+        try:
+            inner.parser_metadata["verif-scribble"] = 1
+            if isinstance(inner, M.Entry):
+                inner.fields.append(M.Field("verif-scribble", "x", -7))
+                inner.key = str(inner.key) + "~"
+        except Exception:  # noqa
+            pass
 
 
 # ---------------------------------------------------------------------------
